@@ -305,6 +305,7 @@ type c01Cfg struct {
 	// the code calls it under its node lock), opening a window for whatever else is runnable
 	AliveYield bool
 	Wide       bool // member addresses travel as 16-byte IPv4
+	Embed      bool // the second address is a genuine IPv6 address whose last four bytes are the first (IPv4) one
 }
 
 func (c c01Cfg) String() string {
@@ -315,6 +316,10 @@ func newC01Rig(seed int64, cfg c01Cfg) (*Rig, *FakePeer, *FakePeer, error) {
 	c01Addrs = c01Narrow
 	if cfg.Wide {
 		c01Addrs = c01WideAddrs
+	}
+	if cfg.Embed {
+		// NAT64-style: 64:ff9b::10.9.0.1 is not the host 10.9.0.1
+		c01Addrs = map[string][]byte{"A1": {10, 9, 0, 1}, "A2": net.ParseIP("64:ff9b::a09:1")}
 	}
 	var key []byte
 	if cfg.Enc {
@@ -579,8 +584,8 @@ func TestC01(t *testing.T) {
 	run.Assume("incarnation-0 alive about an unknown name leaves an invisible placeholder (treated as absent)", "push/pull entries in state dead count as suspicions (hearsay rule)", "probing disabled (ProbeInterval 1h) so suspicion timers do not expire inside a sequence")
 
 	cfgs := []c01Cfg{
-		{"", false, false, 0, false, false}, {"", false, false, 5 * time.Second, false, false}, {"lbl", true, false, 5 * time.Second, false, false}, {"", false, true, 5 * time.Second, true, false}, {"lbl", false, false, 0, true, false},
-		{"", false, false, 5 * time.Second, false, true}, {"", false, false, 0, true, true},
+		{"", false, false, 0, false, false, false}, {"", false, false, 5 * time.Second, false, false, false}, {"lbl", true, false, 5 * time.Second, false, false, false}, {"", false, true, 5 * time.Second, true, false, false}, {"lbl", false, false, 0, true, false, false},
+		{"", false, false, 5 * time.Second, false, true, false}, {"", false, false, 0, true, true, false}, {"", false, false, 5 * time.Second, false, false, true},
 	}
 	// ---- explicit cross product ----
 	carriers := []string{"packet", "compound", "compress", "pp", "ppjoin"}
